@@ -144,14 +144,16 @@ def one_case(ctx, cid, rng, idx):
     chrom_of = gen.bt_chrom_of(bt)
     mode, opts = gen_options(rng, n, chrom_of, idx)
     path = ctx.path()
-    make_cooler(path, bt, P, count_dtype=np.float64 if isfloat else None)
-    clr = cooler.Cooler(path)
+    group = "/" if idx % 4 else "/resolutions/100"
+    uri = path + ("::" + group if group != "/" else "")
+    make_cooler(uri, bt, P, count_dtype=np.float64 if isfloat else None)
+    clr = cooler.Cooler(uri)
     cs = work_cap(len(P), opts, rng)
     desc = {"bt": [[c_, len(e) - 1] for c_, e in bt], "pattern": pat, "float_counts": isfloat, "mode": mode,
             "options": {k: v for k, v in opts.items()}, "chunksize": cs, "nnz": len(P),
             "pixels": sorted((a, b, v) for (a, b), v in P.items())[:200]}
     with ctx.case(cid, desc) as c:
-        c.feature(f"mode:{mode}")
+        c.feature(f"mode:{mode}", "location:root" if group == "/" else "location:nested-group")
         if isfloat:
             c.feature("counts:float")
         if not opts["rescale_marginals"]:
@@ -170,7 +172,7 @@ def one_case(ctx, cid, rng, idx):
             c.feature("store:rebalance-existing-column")
             cooler.balance_cooler(clr, store=True, store_name="weight", ignore_diags=1, min_nnz=0, mad_max=0, max_iters=20)
             with h5py.File(path, "r") as f:
-                first = f["bins/weight"][:]
+                first = f[group]["bins/weight"][:]
             kw["store"] = True
             kw["store_name"] = "weight"
         if any(v == 0 for v in P.values()):
@@ -178,8 +180,8 @@ def one_case(ctx, cid, rng, idx):
         bias, stats = cooler.balance_cooler(clr, chunksize=cs, **kw)
         if stored_twice:
             with h5py.File(path, "r") as f:
-                stored = f["bins/weight"][:]
-                sattrs = dict(f["bins/weight"].attrs)
+                stored = f[group]["bins/weight"][:]
+                sattrs = dict(f[group]["bins/weight"].attrs)
             c.check(np.array_equal(stored, bias, equal_nan=True), "stored-column-differs-from-returned-weights",
                     "after balance_cooler(store=True) over an existing column, bins/weight is not the returned weight vector",
                     {"stored": stored, "returned": bias, "previous_column": first})
